@@ -12,6 +12,7 @@ Not claimed (DESIGN.md C13): atomicity of a creation whose initializer raises.
 """
 from __future__ import annotations
 
+import copy
 import random
 
 from .. import tablekit as tk
@@ -279,6 +280,41 @@ class C13(tk.TableProp):
                                 n += k
                                 if stop:
                                     aborted = True
+                                elif rng.random() < 0.2 and not any(a.get("kind") for f in fills.values() for a in f):
+                                    # the same creation request again, right away: the same count, user data and initial values
+                                    again = {"a": "create", "k": k, "comp": comps[j]["name"], "user": copy.deepcopy(acts[-1]["user"]),
+                                             "move": "repeat:create", "fills": {}}
+                                    for cn, f in fills.items():
+                                        again["fills"][cn] = [dict(copy.deepcopy(a), rows=[r0 + k for r0 in a["rows"]]) for a in f
+                                                              if a["a"] == "upd" and a["view"] != 0]
+                                        for a in again["fills"][cn]:
+                                            remember({"rows": a["rows"], "cols": [c for c in a["cols"] if c[0] in [x for x, _ in comps[int(cn[1:])]["cols"]]]})
+                                    acts.append(again)
+                                    n += k
+                            elif r < 0.62 and n and comps[j]["cols"] and rng.random() < 0.5:
+                                # lesson 12: this component writes U through its own view, somebody overwrites a cell through c0's
+                                # whole-table view (or: the tracked column through the manager's view vs the whole-table view), a
+                                # read in between, then U again verbatim
+                                rows = rng.sample(range(n), rng.randint(1, min(n, 3)))
+                                if rng.random() < 0.6:
+                                    x, d = rng.choice(comps[j]["cols"])
+                                    v, toks = 10 + j, tk.value_tokens(d, rng, len(rows), allow_null=False)
+                                    alt = tk.value_tokens(d, rng, 1, allow_null=False)[0]
+                                    if d == "bool":
+                                        alt = "b0" if toks[0] == "b1" else "b1"
+                                    elif tk.norm_tok(alt) == tk.norm_tok(toks[0]):
+                                        alt = {"int": "i77", "flt": "f77/1", "str": "sz" if toks[0] != "sz" else "sy", "cat": "sz" if toks[0] != "sz" else "sy",
+                                               "time": f"t{tk.T0 + 20 * tk.DAY}"}[d]
+                                else:
+                                    x, d, v = "tracked", "bool", 0
+                                    toks = [rng.choice(["b0", "b1"]) for _ in rows]
+                                    alt = "b0" if toks[0] == "b1" else "b1"
+                                u = {"a": "upd", "view": v, "form": rng.choice(["S", "D"]), "rows": rows, "cols": [[x, d, toks]],
+                                     "ikind": rng.choice(IKINDS), "move": "first-write"}
+                                acts += [u, {"a": "upd", "view": 30, "form": "D", "rows": [rows[0]], "cols": [[x, d, [alt]]], "move": "overwrite-by-another-handle"}]
+                                if rng.random() < 0.5:
+                                    acts.append({"a": "get", "view": v, "idx": rows, "q": ["T"], "mutate": rng.random() < 0.5, "move": "read-in-between"})
+                                acts.append(dict(copy.deepcopy(u), move="repeat:verbatim"))
                             elif r < 0.62:
                                 acts.append({"a": "pop", "untracked": rng.random() < 0.5, "via": rng.choice(["sim", "manager", "default"]),
                                              "mutate": rng.random() < 0.5})
@@ -404,7 +440,7 @@ class C13(tk.TableProp):
                         if self._verdict(e2["spec"], prev2, ce) == "fine":
                             fail("well-behaved-initializer-rejected",
                                  f"log {j2}: update {tk.upd_line(e2['spec'])} of a well-behaved initializer was rejected ({e2['out']}) in creation {e['no']}")
-        fails += tk.held_failures(obs) + tk.population_failures(obs) + tk.history_failures(case, obs)
+        fails += tk.held_failures(obs) + tk.population_failures(obs) + tk.history_failures(case, obs) + tk.read_failures(case, obs)
         return fails
 
     @staticmethod
@@ -494,6 +530,7 @@ class C13(tk.TableProp):
         for acts in list(case.get("init", {}).values()) + [f for h in case.get("hooks", {}).values() for a in h if a["a"] == "create"
                                                            for f in a["fills"].values()]:
             t += [a["kind"] for a in acts if a.get("kind")]
+        t += ["move:" + a["move"] for h in case.get("hooks", {}).values() for a in h if a.get("move")]
         t += ["mode:" + case.get("mode", "?"), "clock:" + case["clock"]["kind"], f"comps:{len(case['comps'])}", f"pop:{min(case['pop'], 6)}"]
         for i, e, prev, cr in tk.walk(obs):
             if e["t"] == "create":
